@@ -134,6 +134,22 @@ Proof.
 Qed.
 Print Assumptions C06_go_order_nested_neg_refuted.
 
+(* the other two exclusions of go_ok are needed as well: two sequence items at one index
+   (no Go representation: open finding of C01) make two different values incomparable,
+   and a sugar tuple with a fractional index (rejected by NewTuple) makes the model panic *)
+Theorem C06_go_order_domain_is_tight :
+  (exists a b, Canon a /\ Canon b /\ a <> b /\ go_ok a = false /\
+     rless (knum_of kind_table) 9 a b = ROk false /\ rless (knum_of kind_table) 9 b a = ROk false) /\
+  (exists a, Canon a /\ go_ok a = false /\ rless (knum_of kind_table) 9 a a = RPanic).
+Proof.
+  split.
+  - exists (VSet [vitem 0 (vint 1); vitem 0 (vint 2)]), (VSet [vitem 0 (vint 1)]).
+    split; [reflexivity|]. split; [reflexivity|]. split; [discriminate|]. vm_compute. repeat split.
+  - exists (VSet [vpair n_char (VNum (NHalf 0)) (vint 97)]).
+    split; [reflexivity|]. vm_compute. split; reflexivity.
+Qed.
+Print Assumptions C06_go_order_domain_is_tight.
+
 (* the hypotheses are satisfiable by non-trivial values: a dict with two values under one key,
    a union set of three buckets, a relation; and the model orders them Dict < UnionSet < Relation *)
 Example C06_go_order_example :
